@@ -180,7 +180,9 @@ def sequences() -> list:
     r = (NODE, 3, 2, 0, 2, "")
     p = (NODE, 3, 0, 0, 3, "d")
     st = (NODE, 255, 4, 0, 1, "fw")
-    items = [a, b, c, i1, i2, r, p, st]
+    tw_i = (NODE, 3, 3, 0, 4, "9")  # an id response on child 3 (internal, type 4) ...
+    tw_s = (NODE, 3, 1, 0, 4, "1013")  # ... and a set of value type 4 on the same child
+    items = [a, b, c, i1, i2, r, p, st, tw_i, tw_s]
     out = []
     for x in items:
         for y in items:
